@@ -21,7 +21,7 @@ func bigCounts(maxK int, all bool) []int {
 	for k := 5; k <= maxK; k++ {
 		p := 1 << k
 		for _, n := range []int{p - 1, p, p + 1, p + p/2 - 1, p + p/2, p + p/2 + 1} {
-			if all || n&1 == 1 || k <= 10 {
+			if all || k <= 10 || (k <= 13 && n&1 == 1) || n == p+1 || n == p+p/2-1 {
 				add(n)
 			}
 		}
@@ -60,23 +60,25 @@ func bigScript(w, h int, withString bool) []Op {
 	ops := []Op{
 		{K: OpFill, X1: 0, Y1: 0, X2: w - 1, Y2: h - 1},         // whole grid
 		{K: OpFill, X1: w - 1, Y1: h - 1, X2: w / 3, Y2: h / 3}, // lower right part, corners swapped
-		{K: OpFill, X1: 0, Y1: h - 1, X2: w - 1, Y2: h - 1},     // last row alone
-		{K: OpClone, B: 0},
-		{K: OpFill, X1: w - 1, Y1: 0, X2: 0, Y2: h - 1, V: -1}, // the zero value over everything
-		{K: OpSet, X1: w - 1, Y1: h - 1},
-		{K: OpRow, Y1: h - 1},
-		{K: OpClone, B: 1},
-		{K: OpFill, X1: 0, Y1: 0, X2: w - 1, Y2: h - 1},
-		{K: OpRowSpan, X1: w / 2, X2: w - 1, Y1: 0},
-		{K: OpSet, X1: 0, Y1: 0},
-		{K: OpSet, X1: w, Y1: 0}, {K: OpSet, X1: 0, Y1: h}, {K: OpGet, X1: w - 1, Y1: h}, {K: OpRow, Y1: h}, {K: OpFill, X1: 0, Y1: 0, X2: w, Y2: h - 1},
 	}
 	if w >= 3 {
-		ops = append(ops, Op{K: OpFill, X1: 1, Y1: 0, X2: w - 2, Y2: h - 1}, Op{K: OpFill, X1: w - 1, Y1: h / 2, X2: 1, Y2: h / 2})
+		ops = append(ops, Op{K: OpFill, X1: 1, Y1: 0, X2: w - 2, Y2: h - 1}) // all but the border columns
 	}
+	ops = append(ops,
+		Op{K: OpFill, X1: w - 1, Y1: 0, X2: 0, Y2: h - 1, V: -1}, // the zero value over everything
+		Op{K: OpRow, Y1: h - 1},
+		Op{K: OpClone, B: w + h},
+	)
 	if h >= 3 {
-		ops = append(ops, Op{K: OpFill, X1: 0, Y1: 1, X2: w - 1, Y2: h - 2}, Op{K: OpFill, X1: w / 2, Y1: h - 1, X2: w / 2, Y2: 1})
+		ops = append(ops, Op{K: OpFill, X1: 0, Y1: 1, X2: w - 1, Y2: h - 2}, Op{K: OpFill, X1: w / 2, Y1: h - 1, X2: w / 2, Y2: 1}) // all but the border rows, one column
+	} else {
+		ops = append(ops, Op{K: OpFill, X1: 0, Y1: h - 1, X2: w - 1, Y2: h - 1}) // last row alone
 	}
+	ops = append(ops,
+		Op{K: OpRowSpan, X1: w / 2, X2: w - 1, Y1: 0},
+		Op{K: OpSet, X1: w - 1, Y1: h - 1},
+		Op{K: OpSet, X1: w, Y1: 0}, Op{K: OpGet, X1: w - 1, Y1: h}, Op{K: OpRow, Y1: h}, Op{K: OpFill, X1: 0, Y1: 0, X2: w, Y2: h - 1},
+	)
 	if withString {
 		ops = append(ops, Op{K: OpString})
 	}
@@ -117,11 +119,11 @@ func bigCases(tier string, yield func(Case) bool) {
 	// other element sizes: 1 byte, 16 bytes, 24 bytes with pointers, 96 bytes, zero-size
 	for _, T := range []string{"u8", "f64x2", "slice", "padded", "unit", "any"} {
 		for _, k := range []int{6, 9, 12, 13, 16} {
+			if k == 16 && T != "u8" && T != "unit" && tier != "thorough" {
+				continue
+			}
 			for _, n := range []int{1<<k - 1, 1<<k + 1, 1<<k + 1<<(k-1) + 1} {
-				if T == "padded" && n > 1<<14 {
-					continue
-				}
-				for j, s := range bigShapes(n)[:5] {
+				for j, s := range bigShapes(n)[:4] {
 					w, h := s[0], s[1]
 					if !yield(Case{T: T, W: w, H: h, Ctor: 1, FillV: -(j % 2)}) || !yield(Case{T: T, W: w, H: h, Ctor: j % 3, Ops: bigScript(w, h, false)}) {
 						return
@@ -137,9 +139,9 @@ var specBig = pbt.Register(&pbt.Spec[Case]{
 	Rule: "enumerated: for every n in {2^k-1, 2^k, 2^k+1, 1.5*2^k-1, 1.5*2^k, 1.5*2^k+1 : k = 5..17 (thorough 21)} + {100, 1000, 10^4, 10^5, 65x64, 100x100, 3*4096+1, 5*4096-1, " +
 		"7*4096+2048, 8192+4095, 65536+4097, 2*65536-3, ...} the shapes n x 1, 1 x n, ceil(n/3) x 3, 3 x ceil(n/3), s x (s+1), (s+1) x s (s = floor sqrt n) and an exact factorisation " +
 		"near the square root: New2DFilled alone (ordinary value; a special value incl. the zero value), New2DFromJagged with h+1 rows of w+1 / shorter values, and on one constructor " +
-		"in turn the script Fill whole grid / lower right part with swapped corners / last row / all but the border columns / all but the border rows / one row / one column / zero " +
-		"value over everything, Clone with writes on both sides, Row and RowSpan windows written through and kept, Set at the corners, calls just outside; so filled runs and copied " +
-		"rows of every length around every power of two up to 2^17 (2^21) occur as a whole store, as one row of a rectangle and as a column; the same on the powers 6, 9, 12, 13, 16 " +
+		"in turn the script Fill whole grid / lower right part with swapped corners / all but the border columns / zero value over everything / all but the border rows / one column " +
+		"(or the last row), Clone with later writes on one side, Row and RowSpan windows written through and kept, Set at the last cell, calls just outside; so filled runs and copied " +
+		"rows of every length around every power of two up to 2^17 (2^21) occur as a whole store, as one row of a rectangle and as a column; the same on the powers 6, 9, 12, 13 (16 for u8 and unit) " +
 		"for the element types u8 (1 byte), f64x2 (16), slice (24, pointers), padded (96), any, unit (zero-size); " + rule,
 	Enum: func(shard, shards int, tier string, yield func(Case) bool) { bigCases(tier, yield) },
 	Run:  Run,
